@@ -55,7 +55,7 @@ func genC19(r *Rng, k int, tier string) *RunSpec {
 				if len(rc) > 0 && r.Intn(6) == 0 {
 					rc = append(rc, Pick(r, rc)) // duplicates allowed
 				} else {
-					rc = append(rc, fmt.Sprintf("https://peer%d.example/u/p%d/inbox", r.Intn(4), j))
+					rc = append(rc, fmt.Sprintf("https://%s/u/p%d/inbox", Pick(r, []string{"peer0.example", "peer1.example", "peer2.example", "peer3.example", "peer1.example:8443", "[2001:db8::1]:8080", "peer2.example:443"}), j))
 				}
 			}
 			reqs = append(reqs, ReqSpec{ID: id, Server: hostA, Kind: "txBatch", Body: payload, Recipients: rc})
@@ -63,10 +63,10 @@ func genC19(r *Rng, k int, tier string) *RunSpec {
 				tx.Fates[fmt.Sprintf("%s.%d#1", id, j+1)] = fate()
 			}
 		case x < 8:
-			reqs = append(reqs, ReqSpec{ID: id, Server: hostA, Kind: "txDeliver", Body: payload, Recipients: []string{"https://peer1.example/u/solo/inbox"}})
+			reqs = append(reqs, ReqSpec{ID: id, Server: hostA, Kind: "txDeliver", Body: payload, Recipients: []string{Pick(r, []string{"https://peer1.example/u/solo/inbox", "https://peer1.example:8443/u/solo/inbox", "http://[2001:db8::2]:8080/u/solo/inbox"})}})
 			tx.Fates[id+"#1"] = fate()
 		default:
-			reqs = append(reqs, ReqSpec{ID: id, Server: hostA, Kind: "txDeref", Recipients: []string{fmt.Sprintf("https://peer2.example/n/%d", r.Intn(9))}})
+			reqs = append(reqs, ReqSpec{ID: id, Server: hostA, Kind: "txDeref", Recipients: []string{fmt.Sprintf("https://%s/n/%d", Pick(r, []string{"peer2.example", "peer2.example:444", "[2001:db8::3]"}), r.Intn(9))}})
 			tx.Fates[id+"#1"] = fate()
 		}
 	}
